@@ -22,6 +22,9 @@ Export ==
              openOptions |-> <<"WRITE", "CREATE", "APPEND">>]).exitValue = 0
 
 \* alphabets (DESIGN.md appendix D)
+Conc == JsonDeserialize("concrete.json")
+NEL == Conc.wide[4].p           \* U+0085: a line break to str.splitlines(), not to a count of "\n"
+MarkupBreaks == <<"{{", "}}", "{%", "%}", "if x", "x", "'", "\r", "\n", NEL, "\f">>
 Markup == <<"{{", "}}", "{%", "%}", "{#", "#}", "#", "-", "~", "raw", "endraw", "comment", "endcomment",
             "liquid", "if x", "endif", "ab", " ", "\n", "{", "}", "%", "'", "\"", "\\", "x", "1">>
 Expr == <<"x", "and", "or", "not", "in", "contains", "if", "else", "with", "for", "as", "nil", "true",
